@@ -75,6 +75,10 @@ impl Watch {
     fn end(&self) {
         self.tag.store(0, Ordering::SeqCst);
     }
+    fn running(&self) -> Option<(u64, u64)> {
+        let t = self.tag.load(Ordering::SeqCst);
+        if t != 0 { Some((t, self.start_ms.load(Ordering::SeqCst))) } else { None }
+    }
     fn overdue(&self) -> Option<u64> {
         let t = self.tag.load(Ordering::SeqCst);
         if t != 0 && now_ms().saturating_sub(self.start_ms.load(Ordering::SeqCst)) > hang_limit_ms() {
@@ -327,6 +331,14 @@ pub trait Prop: Sync {
     /// Execute every run on a fresh OS thread (isolates thread-local state of the
     /// system under test between runs). Off only where the property's own runtime
     /// (the shuttle server thread) must persist for speed.
+    /// A case that hangs may hang because of the *harness*: a simulated second caller runs as a coroutine on
+    /// the caller's OS thread, so a real (non-seam) lock taken by the code under test blocks that thread for
+    /// ever, where two real threads would simply take turns. If the case uses such a feature, return it
+    /// without the feature (and the environment variable that switches the feature off for a whole pass).
+    fn hang_variant(&self, _case: &Self::Case) -> Option<(Self::Case, &'static str)> {
+        None
+    }
+
     fn isolate_runs(&self) -> bool {
         true
     }
@@ -568,18 +580,55 @@ pub fn run_batch<P: Prop>(p: &P, opt: &Options) -> BatchResult {
         s.spawn(|| {
             while workers_left.load(Ordering::SeqCst) > 0 {
                 std::thread::sleep(std::time::Duration::from_millis(100));
-                for w in &watch {
-                    if let Some(tag) = w.overdue() {
-                        let run = tag - 1;
-                        let case = p.generate(&mut Rng::new(mix(opt.seed, p.tag(), run)), opt.tier, run);
+                if watch.iter().any(|w| w.overdue().is_some()) {
+                    // one stuck run can stall the others behind it (a process-wide lock in the code under
+                    // test): give them a moment, then look at everything that has been running for long and
+                    // find the run that hangs on its own, in a fresh process
+                    std::thread::sleep(std::time::Duration::from_millis(3000));
+                    let half = hang_limit_ms() / 2;
+                    let mut stuck: Vec<(u64, u64)> = watch.iter().filter_map(|w| w.running()).filter(|(_, t0)| now_ms().saturating_sub(*t0) > half).collect();
+                    stuck.sort_by_key(|(_, t0)| *t0);
+                    let mut cands: Vec<(u64, P::Case)> = stuck.iter().map(|(tag, _)| { let run = tag - 1; (run, p.generate(&mut Rng::new(mix(opt.seed, p.tag(), run)), opt.tier, run)) }).collect();
+                    cands.sort_by_key(|(_, c)| if p.hang_variant(c).is_some() { 0 } else { 1 }); // stable: oldest first within each group
+                    let mut last_err = String::new();
+                    let mut last_path = String::new();
+                    for (run, case) in cands.into_iter().take(4) {
                         let v = Violation {
                             class: "no-termination".into(),
                             key: format!("{}:no-termination", p.id()),
                             detail: format!("run {run} did not return within {} s of wall-clock time", hang_limit_ms() / 1000),
                         };
                         let path = write_replay(p, opt, run, std::slice::from_ref(&case), &v);
-                        report_hang(p.id(), &path);
+                        match confirm_in_fresh_process(&path, "no-termination") {
+                            Ok(()) => {
+                                if let Some((variant, env)) = p.hang_variant(&case) {
+                                    if std::env::var(env).is_err() {
+                                        let vpath = format!("{path}.variant.json");
+                                        let doc = json!({"property": p.id(), "violation": {"class": "no-termination"}, "case": p.to_json(&variant)});
+                                        let _ = std::fs::write(&vpath, serde_json::to_string(&doc).unwrap());
+                                        let passes = confirm_once(&vpath, "no-termination").err().map(|e| e.starts_with("exit=0 ")).unwrap_or(false);
+                                        let _ = std::fs::remove_file(&vpath);
+                                        if passes {
+                                            let _ = std::fs::remove_file(&path);
+                                            say!("NOTE property={} run {run} blocks for ever only when a second caller is simulated as a coroutine on the caller's OS thread, and returns without it: the code under test waits on something outside the seams (a real lock, say) that two real threads would simply take in turn. That is a limit of this harness, not a violation; the pass is repeated without simulated concurrent callers ({env}=1).", p.id());
+                                            let args: Vec<String> = std::env::args().skip(1).collect();
+                                            let code = std::env::current_exe().ok().and_then(|exe| std::process::Command::new(exe).args(&args).env(env, "1").status().ok()).and_then(|st| st.code()).unwrap_or(2);
+                                            std::process::exit(code);
+                                        }
+                                    }
+                                }
+                                say!("  class=no-termination key={}:no-termination detail=a case did not return within {} s of wall-clock time (no call through any seam, so no step budget could stop it)", p.id(), hang_limit_ms() / 1000);
+                                say!("VIOLATION property={} replay={path}", p.id());
+                                std::process::exit(1);
+                            }
+                            Err(e) => {
+                                last_err = e;
+                                last_path = path;
+                            }
+                        }
                     }
+                    say!("HARNESS-ERROR property={} a run exceeded the wall-clock watchdog but no stuck run hangs on its own in a fresh process (last tried: {last_path}: {last_err})", p.id());
+                    std::process::exit(2);
                 }
             }
         });
@@ -773,6 +822,19 @@ pub fn run_batch<P: Prop>(p: &P, opt: &Options) -> BatchResult {
             reported.push(group);
         }
     });
+    // Failures that no fresh process reproduces, and nothing else to report: with several worker threads in
+    // one process, state that the code under test keeps process-wide (a static lock poisoned by one run, a
+    // global counter) makes *other* workers' runs fail — victims, which pass on their own — and the run that
+    // caused it may not be among the occurrences tried. One worker thread makes the order of runs, and so
+    // the culprit, deterministic: repeat the pass that way before giving up.
+    if exit_code == 0 && opt.threads > 1 && attempts.keys().any(|g| !reported.contains(g)) && std::env::var("SIMCHECK_SINGLE_FALLBACK").is_err() {
+        say!("NOTE property={} failures inside the batch that no fresh process reproduces (state shared between worker threads of this process?): repeating the pass with one worker thread", p.id());
+        let mut args: Vec<String> = std::env::args().skip(1).collect();
+        args.push("--threads".into());
+        args.push("1".into());
+        let code = std::env::current_exe().ok().and_then(|exe| std::process::Command::new(exe).args(&args).env("SIMCHECK_SINGLE_FALLBACK", "1").status().ok()).and_then(|st| st.code()).unwrap_or(2);
+        std::process::exit(code);
+    }
     for (group, (tries, last)) in &attempts {
         if !reported.contains(group) {
             say!(
